@@ -45,8 +45,18 @@ pub fn generate(seed: u64) -> CheckSpec {
     let mut sw = Rng::stream(seed, "swarm");
     let n = *r.pick(&[1usize, 2, 3, 5, 8, 13, 30, 101, 130]);
     let mut files = Vec::new();
+    // swarm: the severity population of the workspace. Which of exit status / report is wrong
+    // for a given flag combination often depends on a severity being *absent* (warnings but no
+    // error, hints only, ...), which a uniform mix of all kinds almost never produces.
+    let palette: &[&str] = match r.below(6) {
+        0 | 1 => &["clean", "clean", "unused", "undefined", "syntax", "mismatch", "mixed", "deprecated"],
+        2 => &["clean", "unused", "mismatch", "deprecated", "mismatch"], // warnings + hints, no error
+        3 => &["clean", "unused", "deprecated"],                         // hints only
+        4 => &["clean", "syntax", "undefined"],                          // errors only
+        _ => &["clean"],                                                 // nothing to report
+    };
     for i in 0..n {
-        let kind = *r.pick(&["clean", "clean", "unused", "undefined", "syntax", "mismatch", "mixed", "deprecated"]);
+        let kind = *r.pick(palette);
         let rel = if i % 3 == 0 { format!("m{i}.lua") } else { format!("dir{}/m{i}.lua", i % 4) };
         files.push((rel, kind.to_string(), i as u32));
     }
@@ -67,6 +77,9 @@ pub fn generate(seed: u64) -> CheckSpec {
             max_yields: *sw.pick(&[1, 3]),
             change_points: *sw.pick(&[0, 2, 4]),
             event_interval: *sw.pick(&[61, 1, 7, 1000, 1000]),
+            stall_permille: 0,
+            stall_len: 0,
+            stall_target: String::new(),
         },
     }
 }
